@@ -15,7 +15,7 @@
 From Coq Require Import List NArith ZArith.
 From Verif Require Import c01vm.Syntax c01vm.Code c01vm.VM c01vm.Den c01vm.Compile c01vm.Natives c01vm.Lemmas c01vm.Correct c01vm.Peep.
 Import ListNotations.
-From Verif Require c01vm2.Syntax c01vm2.Code c01vm2.VM c01vm2.Den c01vm2.Compile c01vm2.Natives c01vm2.Lemmas c01vm2.Correct.
+From Verif Require c01vm2.Syntax c01vm2.Code c01vm2.VM c01vm2.Den c01vm2.Compile c01vm2.Natives c01vm2.Mach c01vm2.Gen c01vm2.Lemmas c01vm2.Correct.
 
 (* For EVERY program q of F that compiles (all variables and labels bound), EVERY input v and EVERY
    instance of the natives there is a fuel with which the VM, started by env.execute on the code finally
@@ -86,7 +86,8 @@ Proof. vm_compute. split; reflexivity. Qed.
    outer loop, as the real code does.
    Statement: for every fuel on which the denotation terminates (does not end with XFuel) the machine, run on the
    code before optimizeTailRec and optimizeCodeOps, terminates with the same observation: [run_is r o] is
-   o = (outputs of r, End | Error e) according to the ending of r, and True when r ended with XFuel. *)
+   o = (outputs of r, End | Error e) according to the ending of r, and True when r ended with XFuel (the converse
+   theorems below say what the machine does in that case). *)
 Theorem C01vm_functions_compile_raw_correct :
   forall (nt : c01vm2.Code.natives) (q : c01vm2.Syntax.query) (code : list c01vm2.Code.instr),
   c01vm2.Compile.compile_raw q = Some code ->
@@ -94,6 +95,30 @@ Theorem C01vm_functions_compile_raw_correct :
     c01vm2.Correct.run_is (c01vm2.Den.den nt fu q [] v) (c01vm2.VM.run nt code fuel (c01vm2.VM.init code v)).
 Proof. exact c01vm2.Correct.compile_raw_correct. Qed.
 Print Assumptions C01vm_functions_compile_raw_correct.
+
+(* the converse direction.  (1) When the denotation runs out of its fuel fu, the machine is still running after
+   fu + 1 steps (every call costs one unit of fuel and pushes one frame; the ghost push counter grows by at most one
+   per step).  (2) Hence: whenever the machine, run with f steps, ends in any way other than exhausting f, the
+   denotation terminates on fuel f, and the observation is the machine's.  Together with the theorem above:
+   the VM terminates on (code, v) iff the denotation does for some fuel, with equal observations.
+   (3) In particular the machine never gets stuck (no Go panic) on any compiled program and input, terminating or not. *)
+Theorem C01vm_functions_out_of_fuel :
+  forall nt q code, c01vm2.Compile.compile_raw q = Some code ->
+  forall fu v, snd (c01vm2.Den.den nt fu q [] v) = Some c01vm2.Den.XFuel ->
+  forall f, f <= S fu -> snd (c01vm2.VM.run nt code f (c01vm2.VM.init code v)) = c01vm2.VM.OutOfFuel.
+Proof. exact c01vm2.Correct.compile_raw_fuel. Qed.
+Print Assumptions C01vm_functions_out_of_fuel.
+Theorem C01vm_functions_converse :
+  forall nt q code, c01vm2.Compile.compile_raw q = Some code ->
+  forall v f outs e, c01vm2.VM.run nt code f (c01vm2.VM.init code v) = (outs, e) -> e <> c01vm2.VM.OutOfFuel ->
+  snd (c01vm2.Den.den nt f q [] v) <> Some c01vm2.Den.XFuel /\
+  c01vm2.Correct.run_is (c01vm2.Den.den nt f q [] v) (outs, e).
+Proof. exact c01vm2.Correct.compile_raw_converse. Qed.
+Print Assumptions C01vm_functions_converse.
+Corollary C01vm_functions_never_stuck :
+  forall nt q code, c01vm2.Compile.compile_raw q = Some code ->
+  forall v f, snd (c01vm2.VM.run nt code f (c01vm2.VM.init code v)) <> c01vm2.VM.IsStuck.
+Proof. exact c01vm2.Correct.compile_raw_never_stuck. Qed.
 
 (* the reading for a terminating denotation *)
 Corollary C01vm_functions_terminating :
@@ -169,3 +194,60 @@ Example C01vm_value_params_nonvacuous :
     = Some out /\
   c01vm2.Den.den c01vm2.Natives.cnat 10 q [] v = (out, None).
 Proof. vm_compute. split; reflexivity. Qed.
+
+(* ---- optimizeTailRec (opcall pc ; opret  ==>  opcallrec pc | jump) ----
+   Proved: the frame-level soundness of the rewrite at one call site.  F1 = Frame idf oF rpc stampF scR outerF is an
+   activation of the function whose opscope is at pe (body q, code cb, nvc variables, no parameter); cx describes
+   F1's caller (scope chain scR, exit after the call that created F1, may write everything from F1's offset on).
+   At a call of that function inside F1 whose continuation is, through silent steps, F1's opret, the original
+   `opcall pe` and the rewritten `opcallrec pe` both deliver to F1's caller the generator of the body's denotation:
+   same outputs in order, same ending, same promises about the store (Gen.G2).  With opcallrec the frame F1 is popped
+   before the new one is pushed and, when no fork created since F1's push is pending, the new frame reuses F1's slots
+   (Correct.G_enter_rec): the frame stack does not grow along tail calls. *)
+Theorem C01vm_tailcall_local_sound :
+  forall (nt : c01vm2.Code.natives) (code : list c01vm2.Code.instr) (m : nat) (q : c01vm2.Syntax.query),
+  c01vm2.Lemmas.Impl nt code m q ->
+  forall scR : list c01vm2.VM.frame, scR <> nil ->
+  forall (ce : c01vm2.Compile.cenv) (pe idf : nat) (cb : list c01vm2.Code.instr) (nvc s0 s1 : nat),
+  c01vm2.Compile.ce_lt ce idf = true ->
+  c01vm2.Mach.at_ code pe (c01vm2.Code.Iscope idf nvc 0) ->
+  c01vm2.Compile.comp q ce idf (S pe) 0 s0 = Some (cb, nvc, s1) ->
+  c01vm2.Lemmas.code_at code (S pe) (cb ++ c01vm2.Code.Iret :: nil) ->
+  forall (cx : c01vm2.Gen.gctx) (rho : c01vm2.Den.venv) (v : c01vm2.Syntax.jv)
+         (P : list c01vm2.VM.sv -> nat -> c01vm2.VM.gx -> Prop)
+         (vs : list c01vm2.VM.sv) (n o : nat) (g : c01vm2.VM.gx) (rpc oF stampF : nat) (outerF : list c01vm2.VM.frame) (pc : nat),
+  let sc1 := (c01vm2.VM.Frame idf oF rpc stampF scR outerF :: scR)%list in
+  c01vm2.Gen.g_sc cx = scR -> c01vm2.Gen.g_pc cx = S rpc -> c01vm2.Gen.g_off cx <= oF -> oF + nvc <= o ->
+  (forall vs' fin e, c01vm2.Gen.encR sc1 ce vs' fin e -> c01vm2.Gen.encR scR (c01vm2.Gen.g_ce cx) vs' fin e) ->
+  (forall i : nat, oF <= i -> c01vm2.Gen.g_own cx i) ->
+  (forall i : nat, c01vm2.Gen.kept sc1 ce i -> c01vm2.Gen.g_keep cx i) ->
+  (forall i : nat, c01vm2.Gen.g_keep0 cx i -> c01vm2.Gen.g_keep cx i) ->
+  c01vm2.Gen.g_koff cx <= oF ->
+  c01vm2.Lemmas.envOK code sc1 ce rho vs (c01vm2.Gen.g_n0 cx) oF ->
+  c01vm2.Gen.g_n0 cx <= n -> o <= length vs -> c01vm2.Gen.g_ctr cx <= stampF -> stampF < c01vm2.VM.ctr g ->
+  (forall a b m0 x m' x', P a m0 x -> c01vm2.Gen.chg (fun i : nat => oF <= i) a b -> c01vm2.Gen.cle m0 x m' x' -> P b m' x') ->
+  (forall a b m0 x m' x', P a m0 x -> c01vm2.Gen.keepK0 cx a b -> c01vm2.Gen.cle m0 x m' x' -> P b m' x') ->
+  P vs n g ->
+  forall lb' : nat, lb' <= S m ->
+  let r := c01vm2.Den.den1 nt (c01vm2.Den.call_of nt m) q rho v in
+  let s := c01vm2.Mach.N sc1 pc (c01vm2.VM.SV v :: c01vm2.Gen.g_st cx) (c01vm2.Gen.g_base cx) vs n o g in
+  let T := c01vm2.Gen.Tend nt code lb' cx (snd r) P in
+  (c01vm2.Mach.at_ code pc (c01vm2.Code.Icallrec pe) -> c01vm2.Gen.G2 nt code cx (fst r) T T s) /\
+  (c01vm2.Mach.at_ code pc (c01vm2.Code.Icallf pe) ->
+   (forall w f vs0 n0 o0 g0,
+      c01vm2.Mach.steps nt code (c01vm2.Mach.N sc1 (S pc) (c01vm2.VM.SV w :: c01vm2.Gen.g_st cx) f vs0 n0 o0 g0)
+        (c01vm2.Mach.N sc1 (S pe + length cb) (c01vm2.VM.SV w :: c01vm2.Gen.g_st cx) f vs0 n0 o0 g0)) ->
+   c01vm2.Gen.G2 nt code cx (fst r) T T s).
+Proof. exact c01vm2.Correct.tailcall_local_sound. Qed.
+Print Assumptions C01vm_tailcall_local_sound.
+
+(* NOT proved (kept visible as a definition; docs/C01vm.md says what blocks it): the whole-program statement for the
+   code after optimizeTailRec.  The pass itself (Compile.tailrec, a transcription of the scan with the pcs stack) is
+   tied to compiler.go by the instruction-list comparison, and the VM is run on the rewritten code for every sampled
+   (program, input) and compared with the implementation and with den. *)
+Definition C01vm_tailrec_sound_statement : Prop :=
+  forall (nt : c01vm2.Code.natives) (q : c01vm2.Syntax.query) (code : list c01vm2.Code.instr),
+  c01vm2.Compile.compile_raw q = Some code ->
+  forall (fu : nat) (v : c01vm2.Syntax.jv), exists fuel : nat,
+    c01vm2.Correct.run_is (c01vm2.Den.den nt fu q [] v)
+      (c01vm2.VM.run nt (c01vm2.Compile.tailrec code) fuel (c01vm2.VM.init (c01vm2.Compile.tailrec code) v)).
